@@ -187,7 +187,6 @@ func histProfile(name string, decide []string, quick, thorough int, o histOpts, 
 
 func init() {
 	register(histProfile("C12", []string{"C12"}, 1200, 50000, histOpts{maxNodes: 4, pCanary: 0.4, fancy: []float64{0, 0.3}, faults: true, twoEDS: true, migration: true}, "C12.foreign-listed", "C12.write"))
-	register(histProfile("C14", []string{"C14"}, 1500, 60000, histOpts{maxNodes: 6, pCanary: 0.5, fancy: []float64{0, 0.3}, faults: true, c02: true}, "C14.eds", "C14.ers", "C14.quiescent"))
 	register(histProfile("C02", []string{"C02"}, 800, 40000, histOpts{maxNodes: 6, pCanary: 0.5, fancy: []float64{0, 0.3, 0.7}, faults: true, sane: true, c02: true, migration: true}, "C02.converged"))
 }
 
@@ -1117,7 +1116,11 @@ func init() {
 			w.Extra["body"] = "c07"
 			return w
 		}
-		return gen(r, tier, idx)
+		w := gen(r, tier, idx)
+		if chance(r, 0.25) {
+			w.Extra["staleHash"] = pick(r, "A", "B", "C", "x")
+		}
+		return w
 	}
 	hp.Body = func(s *Sim) {
 		if s.W.Extra["body"] == "c07" {
@@ -1140,7 +1143,7 @@ func mixProfile(hp *Profile, inj func(*rand.Rand, string, int) *World, bodies ma
 		if idx%2 == 0 {
 			return inj(r, tier, idx)
 		}
-		return gen(r, tier, idx)
+		return gen(r, tier, idx/2) // keeps the alternation of fault-free and fault-injecting histories
 	}
 	hp.Body = func(s *Sim) {
 		if b := bodies[s.W.Extra["body"]]; b != nil {
@@ -1164,4 +1167,10 @@ func init() {
 	register(mixProfile(histProfile("C09", []string{"C09"}, 3000, 120000, histOpts{maxNodes: 8, pCanary: 0.2, fancy: []float64{0, 0.3}, faults: true}, "C09.creates", "C09.spacing", "C09.update-del"),
 		genC09Inject, map[string]func(*Sim){"c09inject": bodyC09Inject},
 		"Even run indices: 0-40 nodes lacking a pod, slowStartIntervalDuration 1s-5m, additive increase as number or percent, maxParallelPodCreation 1-250, reconcileFrequency 1s-1m; 5-20 reconcile requests at instants drawn from the boundary set (slot edges of the Active condition and LastFullSync+frequency, each at -1s, exactly, +1ns, +1s, plus small steps), a template change half-way in a third of the runs, partial kubelet progress in between, rejects and API clock skew in a third."))
+}
+
+func init() {
+	register(mixProfile(histProfile("C14", []string{"C14"}, 3000, 120000, histOpts{maxNodes: 6, pCanary: 0.5, fancy: []float64{0, 0.3}, faults: true, c02: true}, "C14.eds", "C14.ers", "C14.quiescent"),
+		genC14Inject, map[string]func(*Sim){"c14inject": bodyC14Inject},
+		"Even run indices: state injection for the status function - active, canary and an optional third replica set get drawn statuses (0 <= available <= ready <= current <= desired <= nodes), the canary one Canary-Paused / Canary-Failed conditions (absent/True/False, reason from the vocabulary), the ExtendedDaemonSet the canary-paused / canary-paused-reason / canary-unpaused / rolling-update-paused / rollout-frozen annotations in every value; then 1-2 real ExtendedDaemonSet reconciles judged by the status monitors."))
 }
